@@ -68,6 +68,7 @@
 #include "assert.hpp"
 #include "heap.hpp"
 #include "portability_arch.hpp"
+#include "verif_hooks.hpp"
 
 namespace unodb {
 
@@ -1043,6 +1044,7 @@ class qsbr final {
   /// Get the current QSBR state word.
   /// \note Made public for tests and asserts, do not call from the user code.
   [[nodiscard]] qsbr_state::type get_state() const noexcept {
+    UNODB_DETAIL_VERIF_POINT(detail::verif_qsbr_load, &state, sizeof(state), 0);
     return state.load(std::memory_order_acquire);
   }
 
